@@ -146,7 +146,8 @@ class C11(Prop):
                                [["data-level", 0], ["lang", ""]], [["lang", ""], ["data-n", 0.0], ["id", "z"]]])
             gens.append({"kind": "doc", "tree": {"k": "root", "c": top}, "args": args,
                          "prefix": rnd.choice(["lib", None, "a/b", "x"]), "inclver": rnd.random() < 0.5, "later": rnd.random() < 0.3,
-                         "prerender": rnd.random() < 0.5, "twice": rnd.random() < 0.3})
+                         "prerender": rnd.random() < 0.5, "twice": rnd.random() < 0.3,
+                         "seq": rnd.choice(["", "", "", "shared_list", "failed_append", "grown_inside"])})
         leaf = lambda k: {"k": k, "c": []}
         # documents whose dependencies emit no markup at all: the listing must still name them
         for deps in (["d0"], ["d6"], ["d0", "d6"], ["d0", "d1"]):
@@ -178,7 +179,30 @@ class C11(Prop):
         import htmltools as H
         kids = [build(c, H) for c in g["tree"]["c"]]
         kw = {k: v for k, v in g["args"]}
-        if g.get("later") and kids:
+        how = g.get("seq", "")
+        if how == "shared_list" and kids:
+            # two documents built from ONE TagList: what is appended to the other document (or to the list) afterwards is
+            # not content of this one
+            tl = H.TagList(*kids)
+            doc = H.HTMLDocument(tl, **kw)
+            other = H.HTMLDocument(tl)
+            other.append(H.tags.div("only in the other document", mk_dep("d5", H)), mk_dep("hc2", H))
+            tl.append(H.tags.p("appended to the caller's list afterwards"))
+        elif how == "failed_append" and kids:
+            # an append that is rejected (an unsupported object after valid items) adds nothing
+            doc = H.HTMLDocument(*kids, **kw)
+            try:
+                doc.append(H.tags.div("must not stay", mk_dep("d5", H)), mk_dep("hc2", H), gamma.Bad())
+            except TypeError:
+                pass
+        elif how == "grown_inside" and kids and isinstance(kids[0], H.Tag) and kids[0].name not in ("html", "head"):
+            # the document was rendered, then a tag it holds got more children through that tag's own methods
+            first = kids[0]
+            extra = [build({"k": "d4", "c": []}, H), "grown"]
+            doc = H.HTMLDocument(*kids, **kw)
+            doc.render(lib_prefix=g["prefix"], include_version=g["inclver"])
+            first.append(*extra)
+        elif g.get("later") and kids:
             doc = H.HTMLDocument(**kw)
             if g.get("prerender"):
                 # a document object that has already been rendered (same settings) before its content arrives in two steps
